@@ -226,7 +226,10 @@ func doReplay(path, prop, bin, tmp string) int {
 		}
 	}
 	harnessTrouble := false
-	for i := 0; i < 5; i++ {
+	// a failure of the assembled binary may be a race between its goroutines: the scenario fixes the input
+	// and its timing, not the scheduler, so it is run up to 30 times
+	const tries = 30
+	for i := 0; i < tries; i++ {
 		res := runScenario(bin, filepath.Join(tmp, fmt.Sprintf("replay%d", i)), sc)
 		v := judge(sc, res.Output)
 		if res.HarnessKey != "" {
@@ -240,7 +243,7 @@ func doReplay(path, prop, bin, tmp string) int {
 			if res.HarnessKey != "" && (p.Key == "e2e:once-in-order" || p.Key == "e2e:framing") {
 				continue
 			}
-			fmt.Printf("REPRODUCED %s (run %d of 5): %s\n", p.Key, i+1, p.Text)
+			fmt.Printf("REPRODUCED %s (run %d of %d): %s\n", p.Key, i+1, tries, p.Text)
 			return 1
 		}
 	}
@@ -248,6 +251,6 @@ func doReplay(path, prop, bin, tmp string) int {
 		fmt.Println("not reproduced, but the daemon could not be run cleanly")
 		return 2
 	}
-	fmt.Println("not reproduced in 5 runs: the scenario meets the selected oracles")
+	fmt.Printf("not reproduced in %d runs: the scenario meets the selected oracles\n", tries)
 	return 0
 }
